@@ -27,12 +27,19 @@ SBegin == More /\ E.a = "begin" /\ Begin(C1, E.m, E.clk) /\ Adv /\ act' = E
 SStore == More /\ E.a = "store" /\ Store(C1, E.o, Ser(E.o, E.s), E.d) /\ Adv /\ act' = [E EXCEPT !.s = Ser(E.o, E.s)]
 SCheck == More /\ E.a = "check" /\ CheckCurrent(C1, E.o, Ser(E.o, E.s)) /\ Adv /\ act' = [E EXCEPT !.s = Ser(E.o, E.s)]
 SDelete == More /\ E.a = "delete" /\ Delete(C1, E.o, Ser(E.o, E.s)) /\ Adv /\ act' = [E EXCEPT !.s = Ser(E.o, E.s)]
-SUndo == More /\ E.a = "undo" /\ Undo(C1, KTid(E.k)) /\ Adv /\ act' = [E EXCEPT !.k = KTid(E.k)]
+SUndo == More /\ E.a = "undo" /\ (Undo(C1, KTid(E.k)) \/ UndoUnknown(C1, KTid(E.k))) /\ Adv /\ act' = [E EXCEPT !.k = KTid(E.k)]
 SVote == More /\ E.a = "vote" /\ Vote(C1) /\ Adv /\ act' = E
 SFinish == More /\ E.a = "finish" /\ Finish(C1) /\ Adv /\ act' = E
 SAbort == More /\ E.a = "abort" /\ Abort(C1) /\ Adv /\ act' = E
 SPack == More /\ E.a = "pack" /\ Pack(E.sec, E.gc) /\ Adv /\ act' = E
 SReopen == More /\ E.a = "reopen" /\ CloseReopen /\ Adv /\ act' = E
 SNewOid == More /\ E.a = "newoid" /\ NewOid /\ Adv /\ act' = E
-SNext == SBegin \/ SStore \/ SCheck \/ SDelete \/ SUndo \/ SVote \/ SFinish \/ SAbort \/ SPack \/ SReopen \/ SNewOid
+\* after a call of the transaction failed (an undo that raises, a conflict) the caller aborts: the rest of that
+\* transaction's entries, up to and including its finish, is skipped (the generator of a script cannot know which
+\* calls will fail)
+AfterFinish == LET J == {j \in pc..Len(Scripts[sid]) : Scripts[sid][j].a = "finish"}
+               IN IF J = {} THEN Len(Scripts[sid]) + 1 ELSE (CHOOSE j \in J : \A k \in J : j <= k) + 1
+SRecover == More /\ txn # NoTxn /\ txn.phase = "failed" /\ E.a # "abort" /\ Abort(C1)
+            /\ pc' = AfterFinish /\ sid' = sid /\ act' = [a |-> "abort"]
+SNext == SRecover \/ SBegin \/ SStore \/ SCheck \/ SDelete \/ SUndo \/ SVote \/ SFinish \/ SAbort \/ SPack \/ SReopen \/ SNewOid
 =============================================================================
